@@ -84,7 +84,11 @@ def run_single(key):
     # slices of different scale / one slice with fewer effective frames than channels
     scale = 1.0 + np.arange(int(np.prod(lead))).reshape(lead)
     y = y * scale[..., None, None]
-    if key['short'] and int(np.prod(lead)) > 1:
+    if key['short'] == 'tight':
+        # every slice strongly concentrated around its own direction / point (spread 1e-4): the slices have nearly
+        # (not exactly) equal second-order statistics up to a rotation, e.g. nearly equal scatter eigenvalues
+        y = y[..., :1, :] + 1e-4 * y
+    elif key['short'] and int(np.prod(lead)) > 1:
         # last slice: isotropic inside a (D-1)-dimensional subspace (one eigenvalue reaches the floor,
         # moderate maximum); first slice: strongly concentrated (large maximal eigenvalue)
         idx0 = tuple(np.array(lead) - 1)
@@ -97,7 +101,7 @@ def run_single(key):
     y.setflags(write=False)
     st, e = _call(lambda: fit_single(fam, y, sal, opt))
     if e is not None:
-        if key['short']:
+        if key['short'] is True:
             return trivial('stacked fit raised on the rank-deficient slice: ' + type(e).__name__)
         return viol(f'{fam}: stacked fit raised {e!r}')
     fs = single_fields(fam, st)
@@ -358,7 +362,7 @@ def subchecks(tier, seed):
                         opts = ((1, 'eigenvalue'), (5, 'eigenvalue'), (5, 'trace'), (2, False)) \
                             if fam == 'cacg' else ('default',)
                         for opt in opts:
-                            for short in ((False, True) if fam == 'cacg' else (False,)):
+                            for short in ((False, True, 'tight') if fam == 'cacg' else (False, 'tight')):
                                 if D == 3 and len(lead) == 3 and not thorough:
                                     continue
                                 yield (fam, lead, D, N, salk, opt, short, seed)
